@@ -102,9 +102,14 @@ CHECKS = {
             "Generated round trips with lumi != 1, custom normfactor settings, fixed parameters, several measurements, integer and negative yields, and re-exports into used directories (stale-cache histories).",
             "Trusted: vlib/refmodel.py for the evaluation point only (both likelihoods are evaluated by pyhf); exportable domain = what HistFactory XML can express (stated in the check); the harness never clears the file cache.",
             "DESIGN.md#c18"),
+    "C19": ("exploration",
+            "Hypothesis-generated workspaces / patches / patch sets x one subcommand per case x generated option combinations x stdin-or-file input x stdout-or-file output, driven in-process with click's CliRunner; differential oracle = the corresponding library call written independently in the check; file output == stdout output",
+            "Generated-input search crossing options that the suite never crosses (measurement x patch x test statistic x optimizer settings x backend; join x merge; algorithms x format); an option that is parsed but not forwarded produces a value mismatch.",
+            "Trusted: the library calls themselves (checked by C05-C09, C16-C18); in-process CliRunner only; inspect --measurement (undocumented, unused upstream) is compared for its default behaviour only.",
+            "DESIGN.md#c19"),
 }
 
-NOT_YET = "check not built yet in this session (work in progress; the design in DESIGN.md section 5 applies)"
+NOT_YET = "not claimed"
 
 
 def main():
